@@ -108,4 +108,20 @@ class LastPy (σ : Type) where
 instance instLastPyPyVal : LastPy PyVal := ⟨fun v => v⟩
 instance instLastPyProd {α β : Type} [LastPy β] : LastPy (α × β) := ⟨fun p => LastPy.last p.2⟩
 
+/-- a loop over `(some local, accumulated list)` whose body appends `g x` to the list (and may set the other local), followed
+by code that only uses the list -/
+theorem forIn_pair_append_bind (items : List PyVal) (g : PyVal → List PyVal)
+    (body : PyVal → PyVal × List PyVal → M (ForInStep (PyVal × List PyVal))) (k : PyVal × List PyVal → M PyVal)
+    (hb : ∀ x ∈ items, ∀ (o : PyVal) (acc : List PyVal), ∃ o', body x (o, acc) = .ok (.yield (o', acc ++ g x)))
+    (hk : ∀ (o : PyVal) (acc : List PyVal), k (o, acc) = .ok (.iter acc)) :
+    ∀ (o : PyVal) (acc : List PyVal), (forIn items (o, acc) body >>= k) = .ok (.iter (acc ++ items.flatMap g)) := by
+  induction items with
+  | nil => intro o acc; simp [hk]
+  | cons x xs ih =>
+    intro o acc
+    obtain ⟨o', h⟩ := hb x (List.mem_cons_self ..) o acc
+    simp only [List.forIn_cons, h, ok_bind, List.flatMap_cons]
+    rw [ih (fun y hy => hb y (List.mem_cons_of_mem _ hy)) o' _]
+    simp [List.append_assoc]
+
 end PyRt
